@@ -429,6 +429,7 @@ static AttributeKind attributeKind(CK_ATTRIBUTE_TYPE type)
 	case CKA_KEY_TYPE: return akInteger;
 	case CKA_SUBJECT: return akBinary;
 	case CKA_ID: return akBinary;
+	case CKA_PUBLIC_KEY_INFO: return akBinary;
 	case CKA_SENSITIVE: return akBoolean;
 	case CKA_ENCRYPT: return akBoolean;
 	case CKA_DECRYPT: return akBoolean;
